@@ -941,6 +941,17 @@ func init() {
 			}
 			return []Value{&SymVar{NameT: nm, Type: t, Desc: "newvar(" + nm.String() + ")", Concrete: nm.IsConcrete()}}, nil
 		},
+		"go/types.NewField": func(it *Interp, a []Value) ([]Value, error) {
+			nm, err := tmplArg(a[2])
+			if err != nil {
+				return nil, err
+			}
+			t, ok := a[3].(*SymType)
+			if !ok {
+				return nil, fmt.Errorf("NewField with type %T", a[3])
+			}
+			return []Value{&SymVar{NameT: nm, Type: t, Desc: "newfield(" + nm.String() + ")", Concrete: nm.IsConcrete(), Embedded: No}}, nil
+		},
 		"go/types.NewParam": func(it *Interp, a []Value) ([]Value, error) {
 			nm, err := tmplArg(a[2])
 			if err != nil {
